@@ -173,22 +173,38 @@ func childOf(class string, r int) uint64 {
 // build makes the concrete node an abstract descriptor stands for, using the
 // package's own cell operations.
 func build(d *nodeDesc, page uint64) (*storage.VerifCodecNode, error) {
-	leaf := d.Kind == "leaf"
-	v := storage.VerifCodecNewNode(leaf)
-	total := d.N
+	if !d.Stale {
+		return buildWith(d, page, d.N)
+	}
+	// a page that carries stale bytes: a fuller node is built and split, and the half that stays must have d.N cells.
+	// Where the package puts the split point is its own business, so the number of cells before the split is found by trying.
 	capa := storage.VerifCodecIntCap
-	if leaf {
+	if d.Kind == "leaf" {
 		capa = storage.VerifCodecLeafCap
 	}
-	if d.Stale {
-		total = 2*d.N + 1
-		if total > capa {
-			total = 2 * d.N
-		}
-		if total > capa || total/2 != d.N || d.N == 0 {
-			return nil, fmt.Errorf("stale shape with n=%d does not fit capacity %d", d.N, capa)
-		}
+	if d.N == 0 {
+		return nil, fmt.Errorf("stale shape with n=0")
 	}
+	var last error
+	for _, total := range []int{2*d.N + 1, 2 * d.N, 2*d.N - 1, 2*d.N + 2} {
+		if total > capa || total <= d.N {
+			continue
+		}
+		v, err := buildWith(d, page, total)
+		if err == nil {
+			return v, nil
+		}
+		last = err
+	}
+	if last == nil {
+		last = fmt.Errorf("stale-shape: n=%d does not fit capacity %d", d.N, capa)
+	}
+	return nil, last
+}
+
+func buildWith(d *nodeDesc, page uint64, total int) (*storage.VerifCodecNode, error) {
+	leaf := d.Kind == "leaf"
+	v := storage.VerifCodecNewNode(leaf)
 	if leaf {
 		if len(d.Cells) != d.N || len(d.Ins) != d.N {
 			return nil, fmt.Errorf("descriptor: n=%d cells=%d ins=%d", d.N, len(d.Cells), len(d.Ins))
@@ -240,6 +256,11 @@ func build(d *nodeDesc, page uint64) (*storage.VerifCodecNode, error) {
 		}
 	}
 	if v.Count() != d.N {
+		if d.Stale {
+			// the page was to carry stale bytes from a split that leaves d.N cells; the package's split point is not what
+			// the descriptor assumes (it may legitimately change): this shape cannot be built, which says nothing about C12
+			return nil, fmt.Errorf("stale-shape: split left %d cells, descriptor assumes %d", v.Count(), d.N)
+		}
 		return nil, fmt.Errorf("built node has %d cells, descriptor says %d", v.Count(), d.N)
 	}
 	if leaf && d.Upd.Pos > 0 {
